@@ -147,7 +147,8 @@ Theorem C06_name_from_string_diag_iff : forall s, name_from_string s = SDiag dia
 Proof. exact name_from_string_diag_iff. Qed.
 Print Assumptions C06_name_from_string_diag_iff.
 
-(* ================================================================== program counter arithmetic (known finding) *)
+(* ================================================================== program counter arithmetic *)
+(* exact overflow conditions of the three primitives (they are still plain additions / subtractions) ... *)
 Theorem C06_segment_emit_panics_iff : forall pc len, segment_emit pc len = SPanic <-> two64 <= pc + len.
 Proof. exact segment_emit_panics_iff. Qed.
 Print Assumptions C06_segment_emit_panics_iff.
@@ -160,32 +161,43 @@ Print Assumptions C06_target_pc_panics_iff.
 Theorem C06_source_map_add_panics_iff : forall tpc len, source_map_add tpc len = SPanic <-> two64 <= tpc + len.
 Proof. exact source_map_add_panics_iff. Qed.
 Print Assumptions C06_source_map_add_panics_iff.
-(* the branch arm adds 2 to the branch *target* while no segment exists yet: `bcc -1` panics in pass 0 *)
-Theorem C06_branch_pass0_panics_iff : forall target, in_i64 target = true -> (branch_base None target = SPanic <-> target = -1 \/ target = -2).
-Proof. exact branch_pass0_panics_iff. Qed.
-Print Assumptions C06_branch_pass0_panics_iff.
-Theorem C06_branch_offset_guarded : forall cur target,
-  0 <= target < 4611686018427387904 -> (match cur with Some p => 0 <= p < 4611686018427387904 | None => True end) ->
-  branch_offset cur target <> SPanic.
-Proof. exact branch_offset_guarded. Qed.
-Print Assumptions C06_branch_offset_guarded.
-(* `bcc 9223372036854775807` (pass 0) and `bcc -9223372036854775807` (later passes) *)
-Theorem C06_branch_offset_refuted : branch_offset None i64_max = SPanic /\ branch_offset (Some 49152) (-9223372036854775807) = SPanic.
-Proof. exact branch_offset_refuted. Qed.
-Print Assumptions C06_branch_offset_refuted.
-Theorem C06_pc_arithmetic_guarded : forall pc initial target len,
-  Known_pc_out_of_range pc initial target = false -> 0 <= len <= 4294967296 ->
-  segment_emit pc len <> SPanic /\ pc_add pc len <> SPanic /\
-  exists t, target_pc pc initial target = SOk t /\ source_map_add t len <> SPanic.
-Proof. exact pc_arithmetic_guarded. Qed.
-Print Assumptions C06_pc_arithmetic_guarded.
-(* `* = -1` then one byte; a pc of 2^63-1 with a relocated segment; a relocated segment whose pc is moved below its start *)
-Theorem C06_pc_arithmetic_refuted :
-  segment_emit (pc_from_i64 (-1)) 1 = SPanic /\ Known_pc_out_of_range (pc_from_i64 (-1)) 49152 49152 = true /\
-  target_pc (pc_from_i64 i64_max) 0 1 = SPanic /\
-  (exists t, target_pc 4096 8192 0 = SOk t /\ source_map_add t 8192 = SPanic) /\ Known_pc_out_of_range 4096 8192 0 = true.
-Proof. exact pc_arithmetic_refuted. Qed.
-Print Assumptions C06_pc_arithmetic_refuted.
+(* ... which made `* = -1`, a pc option of 2^63-1 and a pc moved below a relocated segment's start panic before dbc944a *)
+Theorem C06_unchecked_pc_witnesses :
+  segment_emit (pc_from_i64 (-1)) 1 = SPanic /\ target_pc (pc_from_i64 i64_max) 0 1 = SPanic /\
+  (exists t, target_pc 4096 8192 0 = SOk t /\ source_map_add t 8192 = SPanic).
+Proof. exact unchecked_pc_witnesses. Qed.
+Print Assumptions C06_unchecked_pc_witnesses.
+(* the range check where a value enters the program counter (`* =`, segment start, segment pc): all values *)
+Theorem C06_address_check_spec : forall v,
+  (0 <= v <= 65536 -> address_check v = SOk v) /\ (~ 0 <= v <= 65536 -> address_check v = SDiag diag_pc_out_of_range).
+Proof. exact address_check_spec. Qed.
+Print Assumptions C06_address_check_spec.
+(* `* = v` in a segment: a diagnostic iff v is outside 0..$10000 or its relocated address is negative; else the invariant holds *)
+Theorem C06_set_pc_spec : forall v initial target,
+  0 <= initial <= 65536 -> 0 <= target <= 65536 ->
+  (0 <= v <= 65536 /\ 0 <= v + (target - initial) ->
+     set_pc_site v (Some (seg_offset initial target)) = SOk (Some v) /\ pc_ok v initial target) /\
+  (~ (0 <= v <= 65536 /\ 0 <= v + (target - initial)) ->
+     set_pc_site v (Some (seg_offset initial target)) = SDiag diag_pc_out_of_range).
+Proof. exact set_pc_site_spec. Qed.
+Print Assumptions C06_set_pc_spec.
+(* under the invariant no primitive panics (any emission an address space can hold) and a successful emit preserves it *)
+Theorem C06_pc_arithmetic_total : forall pc initial target len,
+  pc_ok pc initial target -> 0 <= len < 4611686018427387904 ->
+  (exists t, target_pc pc initial target = SOk t /\ 0 <= t <= 131072 /\ source_map_add t len <> SPanic) /\
+  segment_emit pc len <> SPanic /\
+  (forall p, segment_emit pc len = SOk p -> pc_ok p initial target).
+Proof. exact pc_arithmetic_total. Qed.
+Print Assumptions C06_pc_arithmetic_total.
+(* the branch arm never panics: any target, any current pc (also none: the segment-less pass 0) *)
+Theorem C06_branch_offset_total : forall cur target, branch_offset cur target <> SPanic.
+Proof. exact branch_offset_total. Qed.
+Print Assumptions C06_branch_offset_total.
+(* before dbc944a `+ 2` was a plain addition on the branch target in pass 0: it overflowed exactly for -1 and -2 *)
+Theorem C06_unchecked_branch_base_panics_iff : forall target, in_i64 target = true ->
+  (two64 <= pc_from_i64 target + 2 <-> target = -1 \/ target = -2).
+Proof. exact unchecked_branch_base_panics_iff. Qed.
+Print Assumptions C06_unchecked_branch_base_panics_iff.
 
 (* ================================================================== whole statements *)
 Theorem C06_stmt_align_total : forall en pc e, 0 <= pc <= 65536 -> evaluates_in_i64 en e -> stmt_align en pc e <> RPanic.
@@ -194,16 +206,14 @@ Print Assumptions C06_stmt_align_total.
 Theorem C06_stmt_data_total : forall en pc size e, 0 <= pc <= 65536 -> 0 <= size <= 4 -> stmt_data en pc size e <> RPanic.
 Proof. exact stmt_data_total. Qed.
 Print Assumptions C06_stmt_data_total.
-Theorem C06_stmt_pc_guarded : forall en initial target e v,
-  eval en e = EVal (Some (SNum v)) -> Known_pc_out_of_range (pc_from_i64 v) initial target = false ->
-  stmt_pc_then_byte en initial target e <> RPanic.
-Proof. exact stmt_pc_guarded. Qed.
-Print Assumptions C06_stmt_pc_guarded.
-(* `* = -1` followed by `nop` in the default segment *)
-Theorem C06_stmt_pc_refuted :
-  stmt_pc_then_byte (mkEnv (fun _ => None) None) 49152 49152 (ENum 10 [49%N] false true) = RPanic.
-Proof. exact stmt_pc_refuted. Qed.
-Print Assumptions C06_stmt_pc_refuted.
+(* `* = <any expression>` then a byte, in any segment whose options were accepted; `.define segment` with ANY start / pc then a byte *)
+Theorem C06_stmt_pc_total : forall en initial target e,
+  0 <= initial <= 65536 -> 0 <= target <= 65536 -> stmt_pc_then_byte en initial target e <> RPanic.
+Proof. exact stmt_pc_total. Qed.
+Print Assumptions C06_stmt_pc_total.
+Theorem C06_stmt_segment_total : forall s t, stmt_segment_then_byte s t <> RPanic.
+Proof. exact stmt_segment_total. Qed.
+Print Assumptions C06_stmt_segment_total.
 
 (* ================================================================== loops, recursion, dummy segments *)
 Theorem C06_loop_iterations_guarded : forall count, Known_loop_count_huge count = false -> 0 <= loop_iterations count <= huge_loop_threshold.
@@ -269,12 +279,16 @@ Proof. exact add_file_disjoint. Qed.
 Print Assumptions C06_add_file_disjoint.
 
 (* non-vacuity *)
+Example C06_example_pc :
+  stmt_pc_then_byte (mkEnv (fun _ => None) None) 49152 49152 (ENum 10 [49%N] false true) = RDiag diag_pc_out_of_range /\
+  stmt_segment_then_byte 1 i64_max = RDiag diag_pc_out_of_range /\ stmt_segment_then_byte 4096 8192 = REmitted 4097.
+Proof. exact stmt_pc_examples. Qed.
 Example C06_example_align : align_padding 49153 256 = SOk 255 /\ align_padding 49153 0 = SDiag diag_align_not_positive /\
                             align_padding 49153 1099511627776 = SOk 65537.
 Proof. repeat split; vm_compute; reflexivity. Qed.
 Example C06_example_overflow : apply_i64 Add i64_max 1 = Ovf /\ apply_i64 Shl 1 64 = Ovf /\ apply_i64 Div i64_min (-1) = Ovf /\
                                apply_i64 Add 1 2 = Val 3.
 Proof. repeat split; vm_compute; reflexivity. Qed.
-Example C06_example_guard : Known_pc_out_of_range 49152 49152 49152 = false /\ Known_loop_count_huge 1000 = false /\
+Example C06_example_guard : Known_loop_count_huge 1000 = false /\
                             Known_macro_recursion [[1%nat; 2%nat]; [2%nat]; []] = false.
 Proof. repeat split; vm_compute; reflexivity. Qed.
